@@ -549,3 +549,90 @@ M("C07-publish-retains-under-zero", "C07", [(OPS, '''                .retain_pac
             self.session.runtime.send_quota''', '''                .retain_packet(packet_id & 0x7fff, offset, len)?;
             self.session.runtime.send_quota''')],
   ["C07/src/publish/enqueue"])
+
+# ---------------------------------------------------------------------------------------------- C13
+M("C13-record-progress-after-flush", "C13", [(DRIVE, '''        let written = written + count;
+        self.set_written(packet, written, len);
+        if written < len {
+            return Ok(true);
+        }
+        self.flush_current(packet, now).await?;
+        Ok(true)''', '''        let written = written + count;
+        if written < len {
+            self.set_written(packet, written, len);
+            return Ok(true);
+        }
+        self.flush_current(packet, now).await?;
+        self.set_written(packet, written, len);
+        Ok(true)''')],
+  ["C13/progress/perform_outbound_step/write_current#1"])
+M("C13-reader-commits-after-loop", "C13", [(DRIVE, '''    while !packet_reader.packet_available() {
+        let buffer = packet_reader.receive_buffer()?;
+        if buffer.is_empty() {
+            break;
+        }
+''', '''    let mut pending = 0;
+    while !packet_reader.packet_available() {
+        let buffer = packet_reader.receive_buffer()?;
+        if buffer.is_empty() || pending > 0 {
+            break;
+        }
+'''), (DRIVE, '''        packet_reader.commit(count);
+        trace!("Read {=usize} transport bytes", count);
+    }
+''', '''        pending += count;
+        trace!("Read {=usize} transport bytes", count);
+    }
+    packet_reader.commit(pending);
+''')],
+  ["C13/progress/read_packet/fill_packet_reader#1"])
+M("C13-await-between-id-and-retain", "C13", [(OPS, '''        let packet_id = self.session.data.next_packet_id();
+        let (offset, len) = self.session.data.outbound.encode_packet(&Unsubscribe {''', '''        let packet_id = self.session.data.next_packet_id();
+        self.flush_outbound().await?;
+        let (offset, len) = self.session.data.outbound.encode_packet(&Unsubscribe {''')],
+  ["C13/atomic/unsubscribe"])
+M("C13-set-written-clamps", "C13", [(OUT, '''            Self::Write { written }
+        };''', '''            Self::Write {
+                written: written.saturating_sub(1),
+            }
+        };''')],
+  ["C13/store/set_written"])
+M("C13-setter-swaps-args", "C13", [(OUT, '''            .find(|entry| entry.packet_id == packet_id)
+        {
+            entry.state.set_written(written, len);
+            true
+        } else {
+            false
+        }
+    }
+
+    pub(super) fn flush_retained''', '''            .find(|entry| entry.packet_id == packet_id)
+        {
+            entry.state.set_written(len, written);
+            true
+        } else {
+            false
+        }
+    }
+
+    pub(super) fn flush_retained''')],
+  ["C13/store/set_retained_written"])
+M("C13-subscribe-writes-before-retain", "C13", [(OPS, '''        self.session.runtime.require_packet_size(len)?;
+        self.session
+            .data
+            .outbound
+            .retain_packet(packet_id, offset, len)?;
+        debug!(
+            "Enqueued SUBSCRIBE packet_id={=u16} len={=usize} tx_used={=usize}",''', '''        self.session.runtime.require_packet_size(len)?;
+        self.flush_outbound().await?;
+        self.session
+            .data
+            .outbound
+            .retain_packet(packet_id, offset, len)?;
+        debug!(
+            "Enqueued SUBSCRIBE packet_id={=u16} len={=usize} tx_used={=usize}",''')],
+  ["C13/enq/subscribe/enqueue-atomic"])
+M("C13-step-overcounts", "C13", [(DRIVE, '''        let written = written + count;
+        self.set_written(packet, written, len);''', '''        let written = written + count.max(1);
+        self.set_written(packet, written, len);''')],
+  ["C13/store/step-accumulates"])
